@@ -252,9 +252,13 @@ def gen_run(rng, pool):
             return ("remove", rng.randint(0, 3), rng.choice((None, 0.5, 0.1)), rng.random() < 0.5)
         if r < 0.75:
             return ("collect", rng.randint(0, 3))
-        if r < 0.9:
+        if r < 0.84:
             return ("sell", rng.choice(("0.001", "0.2")))
-        return ("buy", rng.choice(("0.001", "0.2")))
+        if r < 0.92:
+            return ("buy", rng.choice(("0.001", "0.2")))
+        # a position lent to another market (what the squeeth market does with vault collateral) and taken back: it stays a position of this
+        # market's owner, its liquidity stays part of the own-liquidity term and it keeps earning
+        return ("transfer_out", rng.randint(0, 3)) if r < 0.97 else ("transfer_in", rng.randint(0, 3))
     plan = {"init": [], "before": {}, "on": {}, "after": {}}
     if rng.random() < 0.5:
         plan["init"] = [("add",) + tuple(ranges[0]) + ("0.5", "500")]
@@ -284,6 +288,12 @@ def do_op(market, op, log):
         elif op[0] == "collect":
             if keys:
                 market.collect_fee(keys[op[1] % len(keys)])
+        elif op[0] == "transfer_out":
+            if keys:
+                market.transfer_position_out(keys[op[1] % len(keys)])
+        elif op[0] == "transfer_in":
+            if keys:
+                market.transfer_position_in(keys[op[1] % len(keys)])
         elif op[0] == "sell":
             market.sell(Decimal(op[1]))
         elif op[0] == "buy":
